@@ -33,7 +33,7 @@ RULE = ("cli leg: Hypothesis draws 1..3 input files (well-formed FASTA/aligned F
         "rows without an all-gap column, and for well-formed inputs satisfies the full C01 predicate; failure => non-zero status "
         "and a non-empty diagnostic. fuzz leg: libFuzzer targets with the alignment oracle inside the target, from an empty and "
         "from a seed corpus. valgrind leg: memcheck (uninitialised values, invalid accesses) over generated library cases incl. "
-        ">= 500 columns and the array API. letter leg: all 52 letters x 2 kinds enumerated. sweep leg: every row count 2..2100, every width 1..260 and every name length 1..400 of a synthetic alignment through read->finalise->write(fasta, msf, clu) under ASan/UBSan/LSan (exhaustive over those ranges). Non-trivial (cli) = the case reached "
+        ">= 500 columns and the array API. letter leg: all 52 letters x 2 kinds enumerated. align-sweep leg: every number of sequences 2..140, 250..261 and every length 1..140, 250..261, 490..519, 1018..1029 read->run->write. sweep leg: every row count 2..2100, every width 1..260 and every name length 1..400 of a synthetic alignment through read->finalise->write(fasta, msf, clu) under ASan/UBSan/LSan (exhaustive over those ranges). Non-trivial (cli) = the case reached "
         "kalign_run (exit 0) or was rejected with a diagnostic after parsing at least one file; distinct by case hash; fuzz "
         "executions are counted separately in coverage.fuzz.")
 ASSUMPTIONS = ["byte-level inputs are bounded (fuzz 4 KiB, cli files a few KiB .. 100 KiB)",
@@ -600,6 +600,54 @@ def sweep_leg(tier, seed, stats):
     return out
 
 
+def asweep_case(case):
+    """case: dict(leg='asweep', items=[(n sequences, length), ...]): families read -> aligned -> written in all three
+    formats inside one sanitised process per batch (every number of sequences / every length of the sweeps)"""
+    from vlib import sweeps
+    wd = runner.workdir()
+    lines = []
+    for n, L in case["items"]:
+        seqs = sweeps.family(n, L, "dna" if (n + L) % 2 else "protein", salt=case.get("salt", 0))
+        fp = wd.write(kal.fasta_bytes(["s%d" % i for i in range(len(seqs))], seqs), ".fa")
+        lines += ["read 0 1 %s" % fp, "run 0 %d 5 -1 -1 -1" % (1 + (n + L) % 3)] + ["write 0 %s %s" % (f, wd.path("." + f)) for f in ("fasta", "msf", "clu")] + ["free 0"]
+    pr = runner.run_probe(lines, env=runner.LEAK_ENV, cpu=600)
+    if pr.ended.bad:
+        at = len(pr.steps or []) // 6
+        item = case["items"][min(at, len(case["items"]) - 1)]
+        return {"what": "read->run->write x3 ended with %s at (sequences, length) = %s" % (pr.ended.kind, item), **pr.ended.brief()}
+    bad = [(case["items"][i // 6], st.get("rc")) for i, st in enumerate(pr.steps or []) if i % 6 in (0, 1, 2, 3, 4) and st.get("rc") != 0]
+    if bad:
+        return {"what": "a valid family was not aligned/written: (sequences, length) = %s, rc %s" % bad[0]}
+    return None
+
+
+def asweep_leg(tier, seed, stats):
+    from vlib import sweeps
+    out = []
+    quick = tier == "quick"
+    items = [(n, 12) for n in sweeps.count_sweep(quick)] + [(3, L) for L in sweeps.length_sweep(quick)]
+    batches, cur, cost = [], [], 0
+    for it in items:
+        cur.append(it)
+        cost += it[0] * it[0] * it[1] // 50 + it[0] * it[1] * it[1] // 400
+        if cost > 3000 or len(cur) >= 24:
+            batches.append(cur)
+            cur, cost = [], 0
+    if cur:
+        batches.append(cur)
+    cases_ = [{"leg": "asweep", "items": b, "salt": seed} for b in batches]
+    with ThreadPoolExecutor(max_workers=12) as ex:
+        res = list(ex.map(asweep_case, cases_))
+    for c, r in zip(cases_, res):
+        stats.evaluations += len(c["items"])
+        stats.classes["align_sweep_items"] += len(c["items"])
+        if r:
+            out.append({"case": c, "detail": r, "kind": "crash"})
+    stats.nontrivial.add("asweep:%d" % len(items))
+    stats.extra["align_sweep"] = "every number of sequences and every sequence length of vlib/sweeps.py read -> aligned -> written in 3 formats under ASan/UBSan/LSan"
+    return out
+
+
 # ------------------------------------------------------------------ engine glue
 
 def check(case):
@@ -626,6 +674,11 @@ def check(case):
         if r:
             return engine.violation(r, kind="crash")
         return engine.ok(True, ["sweep_replay"], None)
+    if leg == "asweep":
+        r = asweep_case(case)
+        if r:
+            return engine.violation(r, kind="crash")
+        return engine.ok(True, ["asweep_replay"], None)
     if leg == "probe":
         # regression inputs for library-level findings: a probe script over inline files
         wd = runner.workdir()
@@ -648,6 +701,7 @@ def extra(tier, seed, stats):
     out = []
     out += letter_leg(tier, seed, stats)
     out += sweep_leg(tier, seed, stats)
+    out += asweep_leg(tier, seed, stats)
     out += valgrind_leg(tier, seed, stats)
     out += fuzz_leg(tier, seed, stats)
     return out
